@@ -117,7 +117,9 @@ def run(ctx):
             else:
                 unexpl.append(("mailbox list round trip", "list=%r parsed=%s" % (lists[k][:4], p[:200])))
     # ---- header map operations
-    hnames = ["Subject", "subject", "SUBJECT", "SubJect", "X-A", "x-a", "X-a", "To", "tO", "Comments", "COMMENTS", "Keywords", "keywords", "Received", "Resent-From", "Message-ID", "Message-Id"]
+    hnames = ["Subject", "subject", "SUBJECT", "SubJect", "X-A", "x-a", "X-a", "To", "tO", "Comments", "COMMENTS", "Keywords", "keywords", "Received", "Resent-From", "Message-ID", "Message-Id",
+              # names of which one is the beginning of another are different names
+              "Topic", "T", "X-A-B", "x-a-", "Subject-Prefix", "Sub", "Message-ID-2", "Comment"]
     ol = []
     for _ in range(400 if ctx.tier == "quick" else 8000):
         ops = []
